@@ -143,6 +143,26 @@ type Case struct {
 	Nodes      []NodeSpec `json:"nodes"`
 	Records    []RecSpec  `json:"records"`
 	Goroutines int        `json:"goroutines"` // concurrent variant
+	// CtxMode: the context passed to Handle: 0 background, 1 already
+	// cancelled, 2 deadline in the past, 3 carrying values.  slog.TextHandler
+	// (which defines the expected line) ignores it; every record is printed.
+	CtxMode int `json:"ctx_mode,omitempty"`
+}
+
+func (c Case) ctx() context.Context {
+	switch c.CtxMode {
+	case 1:
+		ctx, cancel := context.WithCancel(context.Background())
+		cancel()
+		return ctx
+	case 2:
+		ctx, cancel := context.WithDeadline(context.Background(), time.Unix(1, 0))
+		_ = cancel
+		return ctx
+	case 3:
+		return context.WithValue(context.Background(), struct{ k string }{"request"}, "id-1")
+	}
+	return context.Background()
 }
 
 func (c Case) opts() *slog.HandlerOptions {
@@ -342,7 +362,7 @@ func checkSequential(c Case) error {
 						panic(rec)
 					}
 				}()
-				err = n.h.Handle(context.Background(), r)
+				err = n.h.Handle(c.ctx(), r)
 			}()
 			if fw.failAt > 0 && fw.n == fw.failAt && !faulted && fw.kind == 2 && err != nil {
 				faulted = true // the injected write error is passed through
@@ -480,6 +500,7 @@ func genCase(t *rapid.T, concurrent bool) Case {
 		Level:       rapid.SampledFrom([]int{-8, -4, 0, 4, 8, 2, -100}).Draw(t, "cfglevel"),
 		ReplaceAttr: rapid.Bool().Draw(t, "replaceattr"),
 		ReplaceMode: rapid.SampledFrom([]int{0, 0, 0, 1, 1, 2, 3}).Draw(t, "replacemode"),
+		CtxMode:     rapid.SampledFrom([]int{0, 0, 1, 2, 3}).Draw(t, "ctxmode"),
 		AddSource:   rapid.IntRange(0, 3).Draw(t, "addsource") == 0,
 	}
 	if !concurrent && rapid.IntRange(0, 5).Draw(t, "fault") == 0 {
@@ -584,7 +605,7 @@ func checkConcurrent(c Case) error {
 			defer done.Done()
 			start.Wait()
 			for j := i; j < len(jobs); j += g {
-				if err := jobs[j].n.h.Handle(context.Background(), jobs[j].r); err != nil {
+				if err := jobs[j].n.h.Handle(c.ctx(), jobs[j].r); err != nil {
 					errs[i] = err
 				}
 			}
